@@ -307,6 +307,10 @@ def model_view(ans):
     return {"out": "error", "err": ans["err"]}
 
 
+def model_hyps(ans):
+    return ans.get("hyps") if isinstance(ans, dict) else None
+
+
 # ---- oracle (ii) -----------------------------------------------------------------------------------------
 
 def split_setup_args(args):
@@ -525,9 +529,10 @@ def evaluate(ctx, cases):
                 where.append((ci, ei))
                 reqs.append(model_request(exp))
     answers = ctx.lean.ask_many(reqs)
-    models = {}
+    models, hyps = {}, {}
     for (ci, ei), a in zip(where, answers):
         models[(ci, ei)] = model_view(a)
+        hyps[(ci, ei)] = model_hyps(a)
     for ci, (c, r) in enumerate(zip(cases, results)):
         inp = case_input(c)
         ok = r.get("build_ok") is True
@@ -571,6 +576,11 @@ def evaluate(ctx, cases):
         if "out" in main:
             blk = L.exact_block(main["out"].split("\n"))
             ctx.hist("exact_block=%s" % ("none" if blk is None else "empty" if not blk else "pins"))
+            hy = hyps.get((ci, 0))
+            if hy and c["stream"] == "cf" and complete_env(c, r["built"]):
+                # the named hypotheses of C17_exact_reproduces_partial, evaluated by the model on the real answers
+                for k in ("depsSound", "covered", "noExactLine"):
+                    ctx.hist("hyp_%s=%s" % (k, hy[k]))
             if c["stream"] == "cf" and not complete_env(c, r["built"]):
                 ctx.hist("cf_incomplete_build_env")
             elif c["stream"] == "cf":
